@@ -58,7 +58,24 @@ def make_run(cfg):
         targets.ResTarget.registry = reg
         try:
             watch = None
-            d = w.daemon(HookDaemon)
+            if cfg.get("instance_hook"):
+                # the hook is installed on the daemon object (daemon.clientDisconnect = func), not by subclassing
+                class PlainDaemon(server.Daemon):
+                    def __init__(self, *a, **k):
+                        self.hooks = {}
+                        self.handshaken = []
+                        super().__init__(*a, **k)
+
+                    def validateHandshake(self, conn, data):
+                        self.handshaken.append((data, conn))
+                        return "ok"
+                d = w.daemon(PlainDaemon)
+
+                def hook(conn):
+                    d.hooks[id(conn)] = d.hooks.get(id(conn), 0) + 1
+                d.clientDisconnect = hook
+            else:
+                d = w.daemon(HookDaemon)
             d.register(targets.ResTargetInit if cfg.get("init_tracks") else targets.ResTarget, "res")
             w.serve(d)
             ser = serializers.serializers["serpent"]
@@ -304,6 +321,10 @@ def configs(quick):
                 for linger in (0, 30):
                     out.append({"server": server, "ending": ending, "tracked": 1, "untracked": 0, "other": True, "streams": streams, "linger": linger, "p": 1 if (streams == 1 or not quick) else 0,
                                 "r": 1, "horizon": 4000})
+    # the disconnect hook installed on the daemon instance
+    for server in ("multiplex", "thread"):
+        for ending in ("release", "reset@40"):
+            out.append({"server": server, "ending": ending, "tracked": 1, "untracked": 0, "other": True, "instance_hook": True, "p": 0, "r": 0, "horizon": 4000})
     # a tracked resource that is dropped and collected, and a new one tracked right after it (at the same address, as CPython does)
     for server in ("multiplex", "thread"):
         for ending in ("release", "reset@40"):
